@@ -7,14 +7,16 @@
 
    Modelled code (regular expressions are quoted with a blank inserted between '*' and ')'):
      _r_comment  (cparser.py:27)   /\*.*?\*/|//([^\n\\]|\\.)*?$    DOTALL|MULTILINE
-     replace_keeping_newlines (cparser.py:195)   ' ' + m.group().count('\n') * '\n'
-     _r_words    (cparser.py:36)   \w+|\S           (input of _common_type_names, :255)
+     replace_keeping_newlines (cparser.py:208-209)   ' ' + m.group().count('\n') * '\n'
+     _r_words    (cparser.py:37)   \w+|\S           (input of _common_type_names, :268; modelled in C31/Order.v)
      _r_define   (cparser.py:29)   ^\s*#(?:\s|\\\n)*define(?:\s|\\\n)+([A-Za-z_][A-Za-z_0-9]* )\b((?:[^\n\\]|\\.)*?)$
-     macro value (cparser.py:202)  macrovalue.replace('\\\n', '').strip()
-     _r_line_directive (cparser.py:32)  ^[ \t]*#[ \t]*(?:line|\d+)\b.*$   MULTILINE
-     _remove_line_directives / _put_back_line_directives (cparser.py:167-187)
-     _preprocess (cparser.py:189)  for texts on which the later rewriting steps ('...',
+     macro value (cparser.py:215)  macrovalue.replace('\\\n', '').strip()
+     _r_line_directive (cparser.py:33)  ^[ \t]*#[ \t]*(?:line|\d+)\b.*$   MULTILINE
+     _remove_line_directives / _put_back_line_directives (cparser.py:173-197)
+     _preprocess (cparser.py:199-266)  for texts on which the later rewriting steps ('...',
                  __stdcall/WINAPI/__cdecl, extern "Python") find nothing to rewrite.
+   The pattern texts, the flags and the statement order of these functions are regenerated into C31/Gen.v on every
+   run and compared with / interpreted by C31/Order.v (line numbers as of /repo 2d93229).
    Domain: ASCII texts (Python's \s, \w, str.strip() agree with the classes below on
    code points < 128 except 0x1c-0x1f, which the generators do not produce). *)
 From Coq Require Import List NArith ZArith Bool Arith.
@@ -282,7 +284,7 @@ Fixpoint dict_set (m : macros) (k v : text) : macros :=
   | (k', v') :: m' => if list_eqb_N k k' then (k, v) :: m' else (k', v') :: dict_set m' k v
   end.
 
-(* the finditer loop (cparser.py:200-203) and _r_define.sub('', csource) (:204) in one pass;
+(* the finditer loop (cparser.py:213-216) and _r_define.sub('', csource) (:217) in one pass;
    bol = "this position is the start of a line" (the only places where ^ holds) *)
 Fixpoint defs (fuel : nat) (bol : bool) (s : text) (acc : macros) : text * macros :=
   match fuel with
@@ -461,7 +463,7 @@ Definition put_back_line_directives (s : text) (st : list text) : result text :=
 
 (* ------------------------------------------------------------------ _preprocess *)
 
-(* _r_other_whitespace.sub(' ', csource) (cparser.py:199-202): \r \f \v become blanks *)
+(* _r_other_whitespace.sub(' ', csource) (cparser.py:38, :202): \r \f \v become blanks *)
 Definition other_ws (c : N) : bool := (c =? 13) || (c =? 12) || (c =? 11).
 Definition normalize_ws (s : text) : text := map (fun c => if other_ws c then SP else c) s.
 
